@@ -97,7 +97,7 @@ def gen_history(ch: Choices, known: dict):
                 used_models.add(m)
             elif kind == "register":
                 what = ["propagator", "propagator", "dom_heuristic", "var_heuristic", "consistency"][ch.choose(5, "what")]
-                ops.append({"kind": kind, "what": what})
+                ops.append({"kind": kind, "what": what, "flavour": ch.choose(3, "flavour") if what == "dom_heuristic" else 0})
                 registered.add(what)
             elif kind == "use_custom":
                 ops.append({"kind": kind, "w": 1 + ch.choose(3, "w"), "with_heuristics": ch.chance(1, 2, "with_heuristics")})
@@ -114,7 +114,14 @@ def clean_room_chain(ops: List[dict], i: int) -> List[dict]:
         chain = [o for o in ops[: i + 1] if o.get("name") == op["name"] and o["kind"] in ("new_solver", "take")]
         return [dict(o, reuse_problem=False) for o in chain]
     if op["kind"] == "use_custom":
-        return [o for o in ops[:i] if o["kind"] == "register"] + [op]
+        # only the registrations this operation actually uses: the propagator and the LATEST heuristic / algorithm of
+        # each kind (earlier registrations are history, and must not matter)
+        last = {}
+        for o in ops[:i]:
+            if o["kind"] == "register":
+                last[o["what"]] = o
+        used = [o for w, o in last.items() if w == "propagator" or op.get("with_heuristics", True)]
+        return used + [op]
     return [dict(op, reuse_problem=False)]
 
 
